@@ -17,6 +17,10 @@ ALSO = json.load(open('/verif/seeded/also.json')) if os.path.exists('/verif/seed
 def sh(cmd, **kw):
     return subprocess.run(cmd, shell=True, capture_output=True, text=True, **kw)
 
+import tempfile, atexit
+WT = tempfile.mkdtemp(prefix='seedrun.', dir='/tmp')
+sh(f'git -C /repo worktree add --detach -q {WT} HEAD')
+atexit.register(lambda: sh(f'git -C /repo worktree remove --force {WT}'))
 ids = sys.argv[1:] or sorted(d for d in os.listdir(ROOT) if os.path.isdir(os.path.join(ROOT, d)))
 summary = []
 for sid in ids:
@@ -33,10 +37,7 @@ for sid in ids:
     notes = open(os.path.join(d, 'notes.md')).read() if os.path.exists(os.path.join(d, 'notes.md')) else ''
     meta.setdefault('needs_to_manifest', '')
     meta['confirmed_by'] = 'selftest/confirm_seed.sh in a scratch worktree: go build ./... ok with the patch; existing tests of the touched packages pass with the patch; the demonstration test (TestSeeded*) fails with the patch and passes without it'
-    st = sh('git -C /repo status --porcelain')
-    if st.stdout.strip():
-        print('refusing: /repo is dirty'); sys.exit(2)
-    r = sh(f'git -C /repo apply {patch}')
+    r = sh(f'git -C {WT} apply {patch}')
     if r.returncode != 0:
         meta['check_result'] = 'patch does not apply to the current tree: ' + r.stderr.strip()[:300]
         json.dump(meta, open(meta_path, 'w'), indent=1)
@@ -49,15 +50,15 @@ for sid in ids:
                 results[p] = {'status': 'property not claimed (no check)'}
                 continue
             t0 = time.time()
-            r = sh(f'/verif/check {p} quick -no-evidence')
+            r = sh(f'VERIF_REPO={WT} /verif/check {p} quick -no-evidence')
             viol = re.findall(r'VIOLATION property=\S+ replay=\S+ obligation=(\S+)( no-failing-input-found)?', r.stdout)
             results[p] = {'exit': r.returncode, 'wall_s': round(time.time() - t0, 1),
                           'violated_obligations': [v[0] for v in viol],
                           'with_failing_input': [v[0] for v in viol if not v[1]],
                           'tail': r.stdout.strip().splitlines()[-1:] }
     finally:
-        sh(f'git -C /repo apply -R {patch}')
-        sh('git -C /repo checkout -- .')
+        sh(f'git -C {WT} apply -R {patch}')
+        sh(f'git -C {WT} checkout -- .')
     detected = any(v.get('exit') == 1 and v.get('violated_obligations') for v in results.values())
     meta['checks_run'] = results
     meta['detected'] = detected
